@@ -891,6 +891,11 @@ impl Search {
 #[cfg(rce_verif)]
 impl Search {
     /// Verification hook: (best move, best score, nodes, seldepth) after a search.
+    /// Verification hook: the time-management budget computed by `search` (milliseconds).
+    pub fn verif_timer(&self) -> Option<Millisecond> {
+        self.limits.time_management_timer
+    }
+
     pub fn verif_result(&self) -> (Option<Ply>, Option<Score>, NodeCount, Depth) {
         (
             self.info.best_move,
